@@ -109,11 +109,22 @@ load_lru = functools.lru_cache(maxsize=None)(load2)
 def consume(source=None):
   return source
 
+def __getattr__(name):          # PEP 562: an attribute that exists only through the module's __getattr__
+  if name == 'lazy_fn':
+    return fn
+  raise AttributeError(name)
+
 class Trainer:
   def __init__(self, lr=None):
     self.lr = lr
   def fit(self, epochs='de'):
     return ('fit', epochs)
+  @staticmethod
+  def make(warmup='dw'):
+    return ('make', warmup)
+  @classmethod
+  def build(cls, size='ds'):
+    return ('build', cls.__name__, size)
   class Schedule:
     def __init__(self, steps=None):
       self.steps = steps
@@ -575,6 +586,7 @@ SPECIAL = {
                              "t.consume.source = @t.load()\n",
                              {'load': (('load', 'p1'), {'path': 'p1'}), 'load_cached': (('load_cached', 'p2'), {'path': 'p2'}),
                               'consume': (('load', 'p1'), {'source': '@ref'})}),
+    'lazy_module_attribute': ("from c19tool import c19tool as t\nt.lazy_fn.a = 4\n", {'mod.fn': (('mod.fn', 4), {'a': 4})}),
     'wrapper_only': ("from c19tool import c19tool as t\nt.load_cached.path = 'p2'\n",
                      {'load_cached': (('load_cached', 'p2'), {'path': 'p2'})}),
     'wrapped_only_then_reference_to_wrapper': ("from c19tool import c19tool as t\nt.load.path = 'p1'\n"
@@ -721,6 +733,9 @@ SPELLINGS = {
     'reference_and_method_in_one_list': (
         [SPELL_HEAD + "import c19tool.c19tool as a\na.consume.source = [@a.Trainer(), @a.Trainer.fit]\na.Trainer.fit.epochs = 3\n"],
         {'lr': None, 'fit': ('fit', 3)}),
+    'static_method': (
+        [SPELL_HEAD + "from c19tool import c19tool as t\nt.consume.source = @t.Trainer()\nt.Trainer.make.warmup = 100\nt.Trainer.lr = 2\n"],
+        {'lr': 2, 'fit': ('fit', 'de'), 'make': ('make', 100), 'make_registered': True}),
     'reference_in_earlier_file_method_in_included': (
         [SPELL_HEAD + "from c19tool import c19tool as t\nt.consume.source = @sc/t.Trainer()\nsc/t.Trainer.lr = 5\ninclude 'c19_sp.gin'\n"],
         {'lr': 5, 'fit': ('fit', 3)}),
@@ -740,7 +755,14 @@ def run_spelling(case, res):
   def observe():
     v = gin.get_configurable(m.consume)()
     inst = v[0] if isinstance(v, list) else v
-    return {'lr': inst.lr, 'fit': inst.fit()}
+    out = {'lr': inst.lr, 'fit': inst.fit()}
+    if name == 'static_method':
+      out['make'] = inst.make()
+      try:
+        out['make_registered'] = gin.get_configurable(m.Trainer.make)() == ('make', 100)
+      except Exception:  # pylint: disable=broad-except
+        out['make_registered'] = False
+    return out
   two_methods = None
   try:
     for t in texts:
